@@ -236,6 +236,47 @@ def memo_patterns(repo):
                 mentions = (f"'{key}'" in gt or f'"{key}"' in gt or f".{key}" in gt) and ("not in" in gt or "hasattr" in gt or "is None" in gt)
                 if mentions:
                     out.append((f, key, gt, st))
+    out += keyed_memo_patterns(repo)
+    return out
+
+
+def keyed_memo_patterns(repo):
+    """Look-up-then-store on a mapping that outlives the call: `K in D` / `D.get(K)` / `D.setdefault(K, …)` together with
+    `D[K] = …` in one function, D being an attribute, a class attribute or a module-level name (not a local of the
+    function) and K not a literal.  That is a cache (or a registry) keyed by K."""
+    from .vgraph import assigned_names
+    out = []
+    for f in repo.all_funcs():
+        locals_ = set(assigned_names(f.node.body))
+        stores = {}
+        for n in ast.walk(f.node):
+            if isinstance(n, ast.Assign):
+                for t in n.targets:
+                    if isinstance(t, ast.Subscript) and not isinstance(t.slice, ast.Constant):
+                        base = unparse(t.value)
+                        root = base.split(".")[0].split("[")[0]
+                        if root not in locals_ or root in ("self", "cls"):
+                            stores.setdefault(base, []).append((unparse(t.slice), n))
+        if not stores:
+            continue
+        tests = []
+        for n in ast.walk(f.node):
+            if isinstance(n, ast.Compare) and len(n.ops) == 1 and isinstance(n.ops[0], (ast.In, ast.NotIn)):
+                tests.append((unparse(n.comparators[0]).replace(".keys()", ""), unparse(n.left), unparse(n)))
+            if isinstance(n, ast.Call) and isinstance(n.func, ast.Attribute) and n.func.attr in ("get", "setdefault") and n.args:
+                tests.append((unparse(n.func.value), unparse(n.args[0]), unparse(n)))
+            if isinstance(n, ast.Try) and any(h.type is not None and "KeyError" in unparse(h.type) for h in n.handlers):
+                for x in n.body:
+                    y = x.value if isinstance(x, (ast.Return, ast.Assign)) else None
+                    if isinstance(y, ast.Subscript) and isinstance(y.ctx, ast.Load):
+                        tests.append((unparse(y.value), unparse(y.slice), "try: " + unparse(y)))
+        done = set()
+        for base, keys in stores.items():
+            for tb, tk, gt in tests:
+                for k, st in keys:
+                    if tb == base and tk == k and (base,) not in done:
+                        done.add((base,))
+                        out.append((f, f"{base}[{k}]", gt, st))
     return out
 
 # table A4 — memos confirmed by reading, with the reason each is safe
@@ -251,7 +292,15 @@ MEMO_TABLE = {
     ("beyond/orbits/statevector.py::Infos.kep", "_kep"): "Infos is rebuilt at every `.infos` access, so the memo lives for one access chain",
     ("beyond/orbits/statevector.py::Infos.sphe", "_sphe"): "idem",
     ("beyond/propagators/cw.py::ClohessyWiltshire.n", "_n"): "sma and frame are only set by the constructor (D4)",
+    # keyed mappings that outlive the call (registries, not caches of computed results)
+    ("beyond/dates/eop.py::EopDb.db", "cls._dbs[dbname]"): "registry of EOP database instances by configured name",
+    ("beyond/dates/eop.py::EopDb.register", "cls._dbs[name]"): "registry of EOP database classes by name",
+    ("beyond/env/jpl.py::create_frames", "_frame_cache[center.name]"): "one JplFrame per kernel body, created when the kernels are read",
+    ("beyond/env/jpl.py::create_frames", "_propagator_cache[target.name]"): "one JplPropagator per kernel body, created when the kernels are read",
+    ("beyond/frames/frames.py::Frame.__init__", "dynamic[name]"): "registry of frames by name (re-registration warned and overriding)",
+    ("beyond/utils/node.py::Node._update", "self.routes[name]"): "routing table rebuilt from scratch at every update (R20.4)",
 }
+CACHE_DECORATORS = ("lru_cache", "cache", "cached_property", "memoize")
 MEMOIZE_DECORATED = {"beyond/frames/iau1980.py::_tab": "file table", "beyond/frames/iau1980.py::_nutation": "keyed by str(date) + options: pure function of its arguments",
                      "beyond/frames/iau2010.py::_tab": "file tables"}
 
@@ -270,10 +319,20 @@ def memo_census(chk, rule, only=None):
                  f"`if {guard}:` stores `{key}` and later accesses reuse it: a cache on a mutable object that no writer invalidates "
                  f"(derived quantities keep the values of the first access after the object changes, and copies carry the stale cache)", loc(f, st))
     for f in chk.repo.all_funcs():
-        if "memoize" in f.decorators and (only is None):
+        cached = [d for d in f.decorators if d.split("(")[0].split(".")[-1] in CACHE_DECORATORS]
+        if cached and (only is None or f.ref in only):
             ok = f.ref in MEMOIZE_DECORATED
-            chk.inst(rule, f"{f.ref}::memoize", ok, f"tabled: {MEMOIZE_DECORATED.get(f.ref)}" if ok else "new @memoize (keyed by str(args)): read it, then table it", loc(f, f.node))
+            chk.inst(rule, f"{f.ref}::memoize", ok, f"tabled: {MEMOIZE_DECORATED.get(f.ref)}" if ok else
+                     f"new caching decorator @{cached[0]}: results now depend on what was asked before unless every input is in the key", loc(f, f.node))
     return seen
+
+
+def memo_rule(chk, files):
+    """MEMO: no cache in the anchored files beyond the tabled ones — a result that depends on what was computed before
+    breaks every property that quantifies over histories / call sequences."""
+    chk.rule("MEMO", "every look-up-then-store (cache, registry, memo decorator) in the anchored files is a tabled one")
+    refs = {f.ref for f in chk.repo.all_funcs() if f.module.rel in files}
+    memo_census(chk, "MEMO", only=refs)
 
 
 def fresh_infos(chk, rule):
